@@ -84,6 +84,10 @@ func noSharedStateRules(c *Ctx) {
 
 func checkC15(c *Ctx) {
 	c.importRules(constructorRules, []string{"R5.1"}, "R15.6") // the transport queues references: a message must be its own fresh value
+	// the consumer of a fan-out output keeps consuming: the fan-out delivers with a blocking send under its lock, so a device
+	// reader that waits on anything but its select (a wake-up channel nobody may be reading) stalls the MIDI input of every
+	// device and the removal of its own
+	c.importRulesWhere(inputConsumerRules, []string{"R16.3", "R16.10"}, "R15.11", func(k string) bool { return strings.Contains(k, "handleInputEvents") })
 	cf := buildChanFlow(c.P)
 	classes := cf.Classes()
 	var midiClasses []*chanClass
